@@ -3,4 +3,13 @@ import DSymVerif.Props.C01
 #print axioms DSymVerif.C01.fromSpec_panic_needs_huge_input
 #print axioms DSymVerif.C01.parse_total
 #print axioms DSymVerif.C01.fromSpec_ok_wellformed
+#print axioms DSymVerif.C01.fromSpec_ok_degrees
 #print axioms DSymVerif.C01.parse_ok_wellformed
+#print axioms DSymVerif.C01.parse_ok_degrees
+#print axioms DSymVerif.C01.lex_render
+#print axioms DSymVerif.C01.fmt_is_render_of_display
+#print axioms DSymVerif.C01.fromSpec_display
+#print axioms DSymVerif.C01.print_parse_round_trip
+#print axioms DSymVerif.C01.print_parse_round_trip_dset
+#print axioms DSymVerif.C01.reparse_stable
+#print axioms DSymVerif.C01.reparse_stable_spec
